@@ -256,6 +256,13 @@ pub fn hostile_names(seed: u64) -> Plan {
             used.insert(f.path.clone());
         }
     }
+    // BEP47 padding entries (".pad/<n>") among the files: a client may skip them, the entries
+    // around them are files like any other (zero length here, so the layout stays what it was)
+    if !g.single && Rng64::sub(seed, "hostile-pad").chance(1, 5) {
+        let mut h = Rng64::sub(seed, "hostile-pad-plan");
+        let at = h.usize_below(g.files.len() + 1);
+        g.files.insert(at, FileSpec { path: format!(".pad/{}", h.below(1000)), len: 0 });
+    }
     let n = g.pieces();
     let mut p = base_plan("hostile-names", seed, g);
     p.peers.push(base_peer(0, n));
@@ -287,7 +294,7 @@ pub fn announce_url(seed: u64) -> Plan {
         _ => format!(":{}", r.range(1, 65535)),
     };
     let path = r
-        .pick(&["/announce", "/a/b/announce", "/", "/announce.php", "/x%20y/ann", "/announce/", "/tracker/p4ssk3y/", "", "//announce"])
+        .pick(&["/announce", "/a/b/announce", "/", "/announce.php", "/x%20y/ann", "/announce/", "/tracker/p4ssk3y/", "", "//announce", "/c++/announce", "/a+b"])
         .to_string();
     let query = match r.below(10) {
         0..=3 => String::new(),
@@ -309,6 +316,7 @@ pub fn announce_url(seed: u64) -> Plan {
                 "?cleft=5&my_peer_id=zz",
                 "?xinfo_hash=q&reuploaded=1",
                 "?prevent=started&renumwant=3",
+                "?tag=a+b&c=1",
             ])
             .to_string(),
     };
@@ -949,6 +957,17 @@ pub fn tiling(seed: u64) -> Plan {
         }
         if r.chance(1, 4) {
             honest_flaps(&mut r, &mut peer, true);
+        }
+        // the peer is a downloader too: it asks us for something (we have nothing yet, or we choke
+        // it) while we are fetching from it
+        {
+            let mut h = Rng64::sub(seed ^ (j as u64 + 1), "tiling-peer-requests");
+            if h.chance(1, 4) {
+                let idx = h.below(n as u64) as u32;
+                let l = (piece_len.min(16384)) as u32;
+                peer.script.push(step(When::AfterRx { kind: "Request".into(), count: h.range(1, 3) as u32, plus: h.range(0, 60) }, Act::Send(Msg::Interested)));
+                peer.script.push(step(When::AfterRx { kind: "Request".into(), count: h.range(1, 3) as u32, plus: h.range(60, 120) }, Act::Request(idx, 0, l)));
+            }
         }
         // a peer that chokes may still answer what it was asked before (the blocks are on their way)
         if Rng64::sub(seed ^ (j as u64 + 1), "tiling-serve-after-choke").chance(1, 2) {
@@ -1811,7 +1830,7 @@ pub fn tracker_faults(seed: u64) -> Plan {
     }
     let lat = *r.pick(&[1u64, 100, 1000]);
     total_ms += lat;
-    p.tracker.steps.push((lat, TrackerStep::Good { peers: names.clone(), malformed: r.range(0, 4) as u32, wrong_id_for: vec![] }));
+    p.tracker.steps.push((lat, TrackerStep::Good { peers: names.clone(), malformed: r.range(0, 7) as u32, wrong_id_for: vec![] }));
     // flapping tracker: after the first good reply it fails again for a while (matters when the
     // client has to re-announce, possibly from several announce tasks at once)
     let flapping = r.chance(1, 3);
@@ -1878,8 +1897,21 @@ pub fn tracker_faults(seed: u64) -> Plan {
             p.peers.push(c);
         }
     }
+    // partial re-announce: all but the peer listed last leave; the next good reply lists a peer the
+    // client is still connected to together with the ones it has to dial again
+    let partial = k >= 2 && !flapping && Rng64::sub(seed, "tracker-partial-leave").chance(1, 6);
+    if partial {
+        let mut h = Rng64::sub(seed, "tracker-partial-leave-plan");
+        for peer in p.peers.iter_mut().take(k - 1) {
+            peer.max_accepts = 10;
+            peer.script.push(step(When::At(h.range(100, 3000)), Act::CloseFin));
+        }
+        p.peers[k - 1].accept = Accept::Accept;
+        p.peers[k - 1].unchoke = Unchoke::Never;
+        total_ms += 4_000;
+    }
     // re-announce: every listed peer leaves, the client has to ask the tracker again
-    if flapping || r.chance(1, 4) {
+    if !partial && (flapping || r.chance(1, 4)) {
         for peer in p.peers.iter_mut().take(k) {
             peer.unchoke = Unchoke::Never;
             peer.script.push(step(When::At(r.range(100, 3000)), Act::CloseFin));
